@@ -462,7 +462,7 @@ func runC02(r *report.Report) {
 	// (c) radius-1 mutation neighbourhood of valid encodings
 	maxSeed := 64
 	sd := seeds(maxSeed)
-	vals := []int{0x00, 0x01, 0x02, 0x03, 0x04, 0x06, 0x7f, 0x80, 0x81, 0xc0, 0xfe, 0xff}
+	vals := []int{0x00, 0x01, 0x02, 0x03, 0x04, 0x06, 0x7f, 0x80, 0x81, 0xc0, 0xfe, 0xff, '+', '#', '/'} // incl. the characters that are special in topics
 	if full {
 		vals = nil
 		for v := 0; v < 256; v++ {
